@@ -349,7 +349,18 @@ def run(ctx):
                 a_, pol_ = natom(c[0], c[1])
                 if a_ == ("issome", ("next", S, 2)) and pol_ is False:
                     third_none = True
-            ch = lambda k: (lambda x: x == ("next", S, k) or x == ("nth", S, k))
+            # the same through the text's bytes: exactly two bytes, each widened to a char and sent through the char tables
+            # (which accept ASCII characters only, so two accepted bytes are the text's two characters)
+            BY = ("call", "str::as_bytes", (("ptr", ("P", "s"), (), False),))
+            for c in p.conds:
+                e_ = c[0]
+                if e_[0] == "bin" and e_[1] in ("Eq", "Ne") and isinstance(c[1], int) and ((e_[1] == "Eq") == bool(c[1])):
+                    pair = (e_[2], e_[3])
+                    if ("int", 2, "usize") in pair and any(x[0] == "un" and x[1] == "PtrMetadata" and x[2] == BY or x == ("len", BY) or
+                                                           (x[0] == "call" and x[1].endswith("::len") and x[2] and x[2][0] == BY) for x in pair):
+                        third_none = True
+            byte = lambda k: ("index", ("deref", BY), ("int", k, "usize"))
+            ch = lambda k: (lambda x: x == ("next", S, k) or x == ("nth", S, k) or x == byte(k))
             uses0 = sym.contains(r, ch(0))
             uses1 = sym.contains(r, ch(1))
             # the square index as a function of the two decoded coordinates: 8 * (value from char 1) + (value from char 0)
